@@ -23,6 +23,8 @@ def judge(fam, vec, asg):
         return "constructor/scores() raised %s: %s" % (type(e).__name__, e), None, exp
     if not (isinstance(got, tuple) and len(got) == 3):
         return "scores() is not a 3-tuple: %r" % (got,), got, exp
+    if "-" in repr(got):
+        return "a score is negative (or negative zero): %r" % (got,), got, exp
     for slot, name in enumerate(("base", "temporal", "environmental")):
         if got[slot] is None or got[slot] != exp[slot] / 10.0:
             return "%s score %r, specification equations give %r" % (
@@ -47,7 +49,8 @@ def visit(acc, blk, vec, asg, idx):
 
 
 def blocks(tier):
-    return spaces.v3_blocks(tier) + [spaces.interaction_block("3.0", tier, twin="3.1")]
+    return spaces.v3_blocks(tier, full_inherit=True) + [spaces.interaction_block("3.0", tier, twin="3.1"),
+                                     spaces.layout_block("3.0", twin="3.1")]
 
 
 def run(ctx, res):
@@ -67,8 +70,9 @@ def run(ctx, res):
     res.coverage["bound"] = (
         "the property's full quotient: 2 x 2,592 x 100 temporal spellings; 2 x 2,592 x 48 x 27 "
         "inherited and the same 6.7M effective assignments under full override" if ctx.thorough else
-        "2 x 2,592 x 100 temporal spellings; 2 x 2,592 x 27 requirement assignments x 12 "
-        "(inherit) / 4 (override) temporal skeleton assignments")
+        "2 x 2,592 x 100 temporal spellings; 2 x 2,592 x 27 requirement assignments x all 48 "
+        "effective temporal assignments (inherit: the complete base x requirement x temporal quotient) "
+        "/ 4 temporal skeleton assignments (override)")
     res.assumptions += [
         "float(tenths/10) equals float(Decimal) for one-decimal values (both correctly rounded)"]
 
